@@ -554,15 +554,11 @@ impl DefaultFunction {
                 }
             }
 
+            // Never folded: the result is a group element, and by the time constants are
+            // folded the pass that rewrites element constants into `uncompress` calls has
+            // already run, so the program could no longer be serialised.
             DefaultFunction::Bls12_381_G1_HashToGroup
-            | DefaultFunction::Bls12_381_G2_HashToGroup => {
-                if let (Term::Constant(c1), Term::Constant(c2)) = (&arg_stack[0], &arg_stack[1]) {
-                    matches!(c1.as_ref(), Constant::ByteString(..))
-                        && matches!(c2.as_ref(), Constant::ByteString(dst) if dst.len() <= 255)
-                } else {
-                    false
-                }
-            }
+            | DefaultFunction::Bls12_381_G2_HashToGroup => false,
 
             DefaultFunction::Bls12_381_G1_ScalarMul | DefaultFunction::Bls12_381_G2_ScalarMul => {
                 if let (Term::Constant(c1), Term::Constant(c2)) = (&arg_stack[0], &arg_stack[1]) {
